@@ -68,6 +68,8 @@ def lines_of(evs, grace):
             out.append({"k": "threadexit", "t": e["t"]})
         elif k in ("InitBacktrace", "FlushBacktrace", "Preallocate", "Capacity"):
             out.append({"k": "ctxuse", "t": e["t"]})
+            if k == "FlushBacktrace":
+                out.append({"k": "flushbt", "t": e["t"], "lg": e["lg"]})
         elif k == "Shrink":
             out.append({"k": "ctxuse", "t": e["t"]})
             out.append({"k": "shrink", "req": e["req"], "before": e["before"], "after": e["after"]})
